@@ -1038,3 +1038,99 @@ Proof.
   induction its as [|[c|n i w] its IH]; intros seen; cbn [problems_aux strict_aux]; [reflexivity| |reflexivity].
   destruct (find (key_eqb (c_svlan c) (c_sel c)) seen); [reflexivity|apply IH].
 Qed.
+
+(* ====================================================================================== *)
+(* ---------- a consumer: the AAA policy of a classified pair ---------- *)
+Lemma l2gw_policy_sound a s c n p :
+  l2gw_policy a s c = Some (n, p) ->
+  exists cl, In cl (claims (strip a)) /\ covers cl s c /\ c_name cl = n /\ p = policy_of a n (c_idx cl).
+Proof.
+  unfold l2gw_policy. destruct (lookup (build (strip a)) s c) as [[n' i]|] eqn:L; [|discriminate].
+  intros E; inversion E; subst. apply lookup_sound in L as [cl [Hin [Hc [Hn Hi]]]].
+  exists cl. split; [exact Hin|]. split; [exact Hc|]. split; [exact Hn|]. rewrite Hi; reflexivity.
+Qed.
+
+(* exact wins, at the level of the range's attributes *)
+Lemma l2gw_exact_range_policy a s c cl :
+  In cl (claims (strip a)) -> c_svlan cl = s -> c_sel cl = SelExact c ->
+  exists cl', In cl' (claims (strip a)) /\ c_svlan cl' = s /\ c_sel cl' = SelExact c /\
+              l2gw_policy a s c = Some (c_name cl', policy_of a (c_name cl') (c_idx cl')).
+Proof.
+  intros Hin Hs Hse. destruct (exact_wins (strip a) s c cl Hin Hs Hse) as [cl' [H1 [H2 [H3 H4]]]].
+  exists cl'; repeat split; auto. unfold l2gw_policy. rewrite H4. reflexivity.
+Qed.
+
+(* where a claim comes from: range #(c_idx) of the group named c_name, and that range's S-VLAN list contains c_svlan *)
+Lemma range_claims_origin name : forall rs i cl,
+  In cl (range_claims name i rs) ->
+  c_name cl = name /\ (i <= c_idx cl)%nat /\
+  exists r svs, nth_error rs (c_idx cl - i) = Some r /\ parse_vlan_range (fst r) = Some svs /\ In (c_svlan cl) svs.
+Proof.
+  induction rs as [|[sv cv] rs IH]; intros i cl; cbn [range_claims]; [intros []|].
+  rewrite in_app_iff; intros [H|H].
+  - destruct (parse_vlan_range sv) as [svs|] eqn:Pv; [|destruct H].
+    destruct (parse_cvlan cv) as [se|]; [|destruct H].
+    apply in_map_iff in H as [x [<- Hx]]; cbn [c_name c_idx c_svlan].
+    split; [reflexivity|]. split; [lia|]. exists (sv, cv), svs. rewrite Nat.sub_diag. auto.
+  - destruct (IH (S i) cl H) as [Hn [Hle [r [svs [Hnth [Hp Hin]]]]]].
+    split; [exact Hn|]. split; [lia|]. exists r, svs. split; [|auto].
+    replace (c_idx cl - i)%nat with (S (c_idx cl - S i)) by lia. exact Hnth.
+Qed.
+
+Lemma claims_origin cfg cl :
+  In cl (claims cfg) ->
+  exists g r svs, In g cfg /\ fst g = c_name cl /\ nth_error (snd g) (c_idx cl) = Some r /\
+                  parse_vlan_range (fst r) = Some svs /\ In (c_svlan cl) svs.
+Proof.
+  unfold claims, claims_sorted. rewrite in_flat_map. intros [g [Hg H]].
+  apply range_claims_origin in H as [Hn [_ [r [svs [Hnth [Hp Hin]]]]]].
+  rewrite Nat.sub_0_r in Hnth. exists g, r, svs. apply (proj1 (in_sort_groups _ _)) in Hg.
+  split; [exact Hg|]. split; [symmetry; exact Hn|]. split; [exact Hnth|]. split; [exact Hp|exact Hin].
+Qed.
+
+Lemma find_first_match {A} (f : A -> bool) l : forall i x,
+  nth_error l i = Some x -> f x = true ->
+  (forall j y, (j < i)%nat -> nth_error l j = Some y -> f y = false) -> find f l = Some x.
+Proof.
+  induction l as [|h t IH]; intros [|i] x Hn Hf Hlt; cbn in *; try discriminate.
+  - inversion Hn; subst. rewrite Hf. reflexivity.
+  - rewrite (Hlt 0%nat h) by (lia || reflexivity). apply (IH i x Hn Hf).
+    intros j y Hj Hy. apply (Hlt (S j) y); [lia|exact Hy].
+Qed.
+
+Lemma find_group_unique a : NoDup (map (fun g : agroup => fst (fst g)) a) ->
+  forall g, In g a -> find_group a (fst (fst g)) = Some g.
+Proof.
+  unfold find_group. induction a as [|h t IH]; intros Hnd g Hg; [destruct Hg|].
+  cbn [find map] in *. inversion Hnd as [|? ? Hni Hnd']; subst.
+  destruct Hg as [->|Hg].
+  - rewrite (proj2 (str_eqb_eq _ _) eq_refl). reflexivity.
+  - destruct (str_eqb (fst (fst h)) (fst (fst g))) eqn:E; [|apply IH; assumption].
+    apply str_eqb_eq in E. exfalso. apply Hni. rewrite E. apply in_map_iff. exists g; auto.
+Qed.
+
+(* the S-VLAN-only rescan of the matched group agrees with the matched range exactly when no EARLIER range of that
+   group contains the S-VLAN (whatever its C-VLAN selector, parseable or not) *)
+Lemma rescan_agrees a s c n i g :
+  NoDup (map (fun g : agroup => fst (fst g)) a) ->
+  lookup (build (strip a)) s c = Some (n, i) -> find_group a n = Some g ->
+  (forall j r, (j < i)%nat -> nth_error (snd g) j = Some r -> matches_svlan r s = false) ->
+  rescan_policy g s = policy_of a n i.
+Proof.
+  intros Hnd L Fg Hearlier.
+  apply lookup_sound in L as [cl [Hin [[Hs _] [Hn Hi]]]].
+  apply claims_origin in Hin as [g0 [r0 [svs [Hg0 [Hname [Hnth [Hp Hsv]]]]]]].
+  unfold strip in Hg0. apply in_map_iff in Hg0 as [ag [<- Hag]].
+  assert (Eg : ag = g).
+  { pose proof (find_group_unique a Hnd ag Hag) as F. cbn [strip_group fst] in Hname.
+    rewrite Hname, Hn in F. congruence. }
+  subst ag. cbn [strip_group snd] in Hnth. rewrite nth_error_map in Hnth.
+  destruct (nth_error (snd g) (c_idx cl)) as [ar|] eqn:Har; [|discriminate].
+  cbn in Hnth. inversion Hnth; subst r0. cbn [fst] in Hp.
+  assert (Hm : matches_svlan ar s = true).
+  { unfold matches_svlan. rewrite Hp. apply existsb_exists. exists (c_svlan cl). split; [exact Hsv|].
+    rewrite Hs. apply N.eqb_refl. }
+  rewrite Hi in Har.
+  unfold rescan_policy, policy_of. rewrite Fg, Har.
+  rewrite (find_first_match (fun r => matches_svlan r s) (snd g) i ar Har Hm Hearlier). reflexivity.
+Qed.
